@@ -69,6 +69,7 @@ func (e *Engine) verifyFunc(key string) (res *FnResult) {
 		}
 		res.Obls = obls
 	}()
+	c.escaping = escapingLocals(fi.Body, fi.Pkg.TypesInfo, e.d)
 	st := newState()
 	sig := fi.Sig
 	bind := func(v *types.Var, hint string) {
